@@ -13,6 +13,7 @@ import (
 	"go/token"
 	"go/types"
 	"sort"
+	"strings"
 
 	"golang.org/x/tools/go/ssa"
 )
@@ -309,6 +310,26 @@ func ruleA13Filtered(r *Run, p *Prog, rels map[string]bool, rules string, only f
 
 func (a *a13) checkFunc(f *ssa.Function, rules string) {
 	r, p := a.r, a.p
+	// a chainable method (exported, returns the pooled type) leaves its receiver with the caller,
+	// who goes on using it: it never returns the receiver to the pool itself — only the finalisers
+	// (Msg/Send through write) do. `Discard` recycling the event "because the chain ends here"
+	// puts it a second time when the caller that kept the pointer finalises it.
+	if strings.Contains(rules, "b") && f.Signature.Recv() != nil && f.Object() != nil && f.Object().Exported() && len(f.Params) > 0 && f.Signature.Results().Len() == 1 {
+		rt := f.Signature.Recv().Type()
+		if isPointer(rt) && a.pooled[namedOf(rt)] && types.Identical(f.Signature.Results().At(0).Type(), rt) {
+			var bad ssa.Instruction
+			eachInstr(f, func(b *ssa.BasicBlock, i int, in ssa.Instruction) {
+				if v := a.putArgOf(in); v != nil && sameObj(v, f.Params[0]) {
+					bad = in
+				}
+			})
+			pos := p.Pos(f.Pos())
+			if bad != nil {
+				pos = p.Pos(bad.Pos())
+			}
+			r.Ob("A13b", FnName(f)+"/chainable-keeps-receiver", pos, bad == nil, true, tern(bad == nil, "the chainable method does not return its receiver to the pool", FnName(f)+" returns its own receiver to the pool although its caller still holds the pointer (the method is chainable): a caller that goes on to finalise the event puts it a second time, and two later events share one object"))
+		}
+	}
 	has := func(x byte) bool {
 		for i := 0; i < len(rules); i++ {
 			if rules[i] == x {
